@@ -632,6 +632,8 @@ def run(ctx):
     dns = {k: du.macro_int(k) for k in ('DNS_MEM', 'DNS_SOFT', 'DNS_HARD')}
     if None in dns.values():
         raise AnalysisBroken('DNS_* constants not found')
+    if ctx.thorough:
+        ConnectHooks.SCEN = ConnectHooks.SCEN + [(10, 20, 30), (10, 10, 20), (30, 20, 10), (20, 20, 20)]
     CHk = ConnectHooks(dns)
     e6 = Engine(db, prm, CHk, max_states=2000000)
     fid6 = e6.frame_id(mainr)
